@@ -168,6 +168,10 @@ type World struct {
 	Stdio *mcp.StdioServer
 	Path  string
 
+	// PreInit, when set, is handed every library client ConnectLib creates before its handshake starts; what it returns is
+	// called once the handshake has returned (workloads that run next to Initialize).
+	PreInit func(c mcp.Connector) (stop func())
+
 	unix *UnixServer
 	peer *Peer
 
